@@ -55,6 +55,17 @@ def run(ctx):
         if k not in seen:
             seen.add(k)
             vec.append(v)
+    # directed: zeros of both signs around the compression threshold (equal under ==, printed differently: "-0.0" must not vanish in "Nx0.0")
+    Z = {"f": ([0, 0], [32768, 0]), "d": ([0, 0, 0, 0], [32768, 0, 0, 0])}
+    for t in "fd":
+        for n in (4, 5, 6, 8):
+            for neg in ({0}, {n - 1}, {2}, {1, 3}, set(range(n)), set(range(1, n)), set(range(0, n, 2))):
+                for compress in (1, 0):
+                    v = dict(list=[dict(t=t, v=Z[t][1 if i in neg else 0]) for i in range(n)], opts=dict(lossless=True, prec=2, linelen=40, compress=compress), addr=[47, 97])
+                    k = json.dumps(v, sort_keys=True)
+                    if k not in seen:
+                        seen.add(k)
+                        vec.append(v)
     ctx.bounds = dict(one_item_cases=len(v1), two_item_cases=len(v2))
     ctx.exhaustive = True
     p = ctx.write_ndjson("in.ndjson", vec)
